@@ -276,10 +276,25 @@ func product(bools []string, ints map[string][]int64) []Env {
 	return envs
 }
 
-// paramNamed: v is the function parameter called name.
+// paramNamed: v is the function parameter called name, or a load of the
+// entry-block spill slot of that parameter (parameters captured by closures
+// are spilled to an Alloc that is stored exactly once).
 func paramNamed(v ssa.Value, name string) bool {
-	p, ok := ssau.Unwrap(v).(*ssa.Parameter)
-	return ok && p.Name() == name
+	v = ssau.Unwrap(v)
+	if p, ok := v.(*ssa.Parameter); ok {
+		return p.Name() == name
+	}
+	if u, ok := v.(*ssa.UnOp); ok && u.Op == token.MUL {
+		if a, ok := u.X.(*ssa.Alloc); ok {
+			sts := ssau.StoresInto(a)
+			if len(sts) == 1 {
+				if p, ok := sts[0].Val.(*ssa.Parameter); ok && p.Name() == name && sts[0].Addr == ssa.Value(a) {
+					return true
+				}
+			}
+		}
+	}
+	return false
 }
 
 // methodCallNamed: v is the result of a call (static or invoke) of a method/function called name.
